@@ -64,3 +64,18 @@ Proof.
     + apply utf8_char_lt. exact Hlt.
     + rewrite lex_cmp_N_antisym. rewrite (utf8_char_lt d c _ _ Hgt). reflexivity.
 Qed.
+
+(* ---- size of the UTF-8 form: between one and four bytes per scalar value ---- *)
+Lemma utf8_encode_char_length (c : N) :
+  (1 <= List.length (utf8_encode_char c) <= 4)%nat.
+Proof.
+  unfold utf8_encode_char.
+  destruct (_ <? _); [cbn; lia|]. destruct (_ <? _); [cbn; lia|]. destruct (_ <? _); cbn; lia.
+Qed.
+
+Theorem utf8_encode_length (s : list N) :
+  (List.length s <= List.length (utf8_encode s) <= 4 * List.length s)%nat.
+Proof.
+  induction s as [|c s IH]; unfold utf8_encode in *; cbn [flat_map List.length]; [lia|].
+  rewrite app_length. pose proof (utf8_encode_char_length c). lia.
+Qed.
